@@ -175,7 +175,15 @@ def run_family(case, bus, ex):
     m = int(rng.integers(2, 5))
     a = [U(-0.3, 0.1), U(-1, 1) * sc, U(0.005, 0.05) * sc ** 2, U(-0.01, 0.01) * sc ** 3, -U(1e-5, 1e-3) * sc ** 4][: m + 1]
     # relations between coefficients that ordinary draws never produce: two equal non-zero entries, exact (repeated) zeros
-    rel = (case["rs"][4] + N) % 4
+    rel = (2 * case["rs"][4] + N + D) % 5
+    if rel == 4:            # the configuration typed with Python ints: integer box, integer step, integer coefficients
+        L, dt = int([5, 7, 10][N % 3]), 1
+        sc = L / (2 * np.pi)
+        a = [int(np.sign(x)) * (1 + int(abs(x) * 1e3) % 2) for x in a]
+        if len(a) >= 3:
+            a[2] = abs(a[2])
+        if len(a) >= 5:
+            a[4] = -abs(a[4])
     if rel == 1 and len(a) >= 3:
         a[0] = a[2]
     elif rel == 2 and len(a) >= 3:
